@@ -9,21 +9,24 @@ CLAIMED = {
         text="TLC explores the pc-structured model of qmail-queue over envelope variants with every single fault, kill and crash (invariants Atomic, "
              "SuccessMeansQueued, Refusals, StateTable; three classic mutations of the model are required to fail). Every run of the real qmail-queue "
              "(generated messages/envelopes; one run per intercepted call x failure kind; real kills) is replayed by TLC through the file-system model and "
-             "the monitors are evaluated in every state and every crash successor of every prefix; the real directory listing must equal the model state.",
+             "the monitors are evaluated in every state and every crash successor of every prefix; the real directory listing must equal the model state. "
+             "Added since: every call also as a short write, and the program's own SIGALRM delivered before every call (its handler runs and is traced).",
         note="directory operations synchronous and fsync durable as conf-qmail stipulates; torn sectors not modelled; shim assumed to see every file-system call",
         design="5 C01"),
     "C05": dict(
         technique="TLA+ program-layer model of the qmail-smtpd DATA recogniser checked against a declarative RFC 5321 receiver on every prefix by TLC + TLC validation of records from real qmail-smtpd sessions (read splits by shim, round trip through the real qmail-remote)",
         text="TLC checks that the transcribed five-state recogniser agrees with the reference receiver RefRecv on every prefix of every stream up to a "
              "length bound and that decode(encode(m)) = m; every real SMTP session (all short streams, split reads, trailing command bytes, random "
-             "long streams, payloads produced by the real client) is a record judged by TLC with the monitor DecVerdict.",
+             "long streams, payloads produced by the real client) is a record judged by TLC with the monitor DecVerdict. "
+             "Added since: round trip through the real client with bare CRs, sessions under a size limit, recognised commands after the terminator with predicted replies, a preamble that fails only under a read cap is a verdict.",
         note="alphabet {CR,LF,'.',x}; the QMAILQUEUE stand-in records what the daemon hands to the queue; lines '.' CR x are left unconstrained (DESIGN 6.3)",
         design="5 C05"),
     "C06": dict(
         technique="TLA+ program-layer model of qmail-remote blast() checked exhaustively by TLC + TLC validation of records from the real encoder (function seam and qmail-remote binary) against the RFC 5321 receiver monitor",
         text="TLC explores the transcribed encoder over every message up to a length bound (invariant EncodingSound); every transmission "
              "made by the real code (all short messages x read chunkings through blast(), real qmail-remote to a scripted server, random long "
-             "messages) is a record that TLC judges with the same monitor (EodOnce/NoBareLF/lines preserved).",
+             "messages) is a record that TLC judges with the same monitor (EodOnce/NoBareLF/lines preserved). "
+             "Added since: runs of the real qmail-remote with one failing or short system call each (result class failed), a server that refuses DATA (result class nodata: nothing of the message may follow).",
         note="alphabet {CR,LF,'.',x} represents the byte classes; scripted server and seam harness are trusted to record bytes faithfully",
         design="5 C06"),
     "C02": dict(
@@ -39,14 +42,16 @@ CLAIMED = {
         text="TLC explores QSend (accept, preprocess, deliveries, any report class in any order, foreign reports, bounce, crash with optional loss of un-synced marks "
              "and bounce records, TERM/restart) with the invariant that the monitor QSendMon never objects. The same monitor judges every history run on the real "
              "programs: a controller plays qmail-start and both spawners, every system call of the daemon, the cleaner and qmail-queue is granted one at a time, "
-             "so crashes and failures are placed before any chosen call and quiescence is exact.",
+             "so crashes and failures are placed before any chosen call and quiescence is exact. "
+             "Added since: each unlink of qmail-clean failing in turn, failing reads / opens in a message that follows a completely delivered one, histories with qmail-qread and with the activity record as events (X01 / X02, DESIGN 5c).",
         note="delivery agents are not run (the controller answers delivery commands); lossy crash = per-file revert to the last fsync image, marks individually; time is virtual",
         design="5 C03"),
     "C04": dict(
         technique="same engine as C03: TLC model of the queue manager + monitor; TLC trace validation of gated histories of the real daemon, biased to many recipients, concurrency 0..n and announced limits, with crash points",
         text="The C04 clauses of the monitor (finished recipient attempted again, two attempts in flight, concurrency limit = min(configured, announced) exceeded, "
              "delivery number in use, delivered twice without crash) are invariants of the TLC model and are evaluated on every history of the real daemon, including a "
-             "crash before each of its mutating calls with marks kept or individually lost (the exemption for lost marks is computed by the crash model, not by the harness).",
+             "crash before each of its mutating calls with marks kept or individually lost (the exemption for lost marks is computed by the crash model, not by the harness). "
+             "Added since: wide histories (140-255 recipients) around the one-byte announced limit 127/128/255; clause MessagePreprocessedAgainAfterDeliveriesStarted.",
         note="as C03",
         design="5 C04"),
     "C07": dict(
@@ -54,7 +59,8 @@ CLAIMED = {
         text="Ingest.tla demands: a positive acknowledgement iff the queue program saw the envelope terminator and exited 0 having received exactly Received-field + decoded body and the acknowledged "
              "envelope; size/hop/address refusals permanent and nothing queued; queue exit codes classed as qmail-queue(8) documents; a Received field made of safe bytes only. IngestModel.tla checks "
              "the transcribed daemons for every combination. The real daemons are run over every exit status 0..255, custom texts, death by signal, bodies around databytes, 98..101 hop fields, "
-             "over-long/NUL/policy-refused addresses, hostile peer strings and every cut point of small transactions; TLC judges every record.",
+             "over-long/NUL/policy-refused addresses, hostile peer strings and every cut point of small transactions; TLC judges every record. "
+             "Added since: several messages on one connection (every ordered pair of message kinds), one failing or short call of the daemon per run, incomplete requests (every cut point, wrong last byte) must queue nothing.",
         note="'queued' = the stand-in saw the terminator and exited 0; exit codes 100..255 and 115 only required to give a negative reply",
         design="5 C07"),
     "C08": dict(
@@ -68,14 +74,16 @@ CLAIMED = {
         technique="TLA+ transcription of qmail-remote smtp() and qmail-rspawn report() checked by TLC against reference verdict sets for every server script / every exit-status x output combination + TLC validation of real qmail-remote runs against a scripted SMTP server and real qmail-rspawn runs with a scripted QMAILREMOTE",
         text="Remote.tla gives, per server script over reply classes, the set of results the statement allows (odd <400 replies may be read either way); RemoteModel.tla and FoldModel.tla "
              "check the transcriptions for every script / output. The real qmail-remote is run against a scripted server for every script (boundary codes 399/400/499/500/599, multi-line "
-             "replies, disconnects, stalls, no listener), the real qmail-rspawn relays every stand-in result; all records are judged by TLC.",
-        note="replies outside 2xx-5xx and per-line differing codes are not generated; the possible-duplicate flag is observed as text",
+             "replies, disconnects, stalls, no listener), the real qmail-rspawn relays every stand-in result; all records are judged by TLC. "
+             "Added since: malformed reply lines as a reply class (never an acceptance), one failing or short call of the client per run (FaultVerdict), and the table of hosts that time out: Tcpto.tla / TcptoModel.tla / TcptoRec.tla bound by a function seam over every (table, call) of a bounded domain and by runs of the real qmail-remote under the virtual clock.",
+        note="0xx/1xx/6xx+ codes and per-line differing codes are not generated; the possible-duplicate flag is observed as text; a connection attempt 'times out' against a listener whose accept queue is full",
         design="5 C09"),
     "C10": dict(
         technique="TLA+ declarative Route/SenderAdd from the documents vs. branch-by-branch transcription of getcontrols/rewrite/senderadd/todo_do checked by TLC + TLC validation of recipient lists and delivery commands produced by the real qmail-queue/qmail-send/qmail-clean (and a function seam) over generated configurations, with HUP histories",
         text="Rewrite.tla defines Route, MsgVerdict, SenderAdd and Effective (controls as of start / last HUP); RewriteSend.tla transcribes the code and is checked over ~30k configurations x "
              "envelopes x edits with every branch action covered. The real daemon is played in parallel sandboxes (qmail-start plumbing), messages are injected by the real qmail-queue, "
-             "local/remote lists and delivery commands are read back; ~400k recipient evaluations per quick run are judged by TLC.",
+             "local/remote lists and delivery commands are read back; ~400k recipient evaluations per quick run are judged by TLC. "
+             "Added since: control files with empty lines and an unterminated last line, a name with every letter of the alphabet in both cases.",
         note="percent hack with an @ inside the would-be domain left open between three readings; duplicate control keys outside the domain (as the property says)",
         design="5 C10"),
     "C11": dict(
